@@ -20,6 +20,10 @@ from typing import Callable
 SPIN_LIMIT = 2000
 
 
+STALL_SECONDS = 20.0     # real seconds one session may take (they take milliseconds; the longest, 10^5-byte serial runs, a few seconds)
+STALLS = [0]             # sessions of this process that ended in the watchdog (after three the remaining ones stall at once: 2 s each)
+
+
 class Spin(BaseException):
     """a coroutine kept the loop for SPIN_LIMIT reads without yielding"""
 
@@ -193,6 +197,35 @@ class FakeWriter:
         return default
 
 
+class _QuietReader(asyncio.StreamReader):
+    """the bystander's link: nothing is logged, but a read loop that never yields is still a spin (of a client of this process)"""
+
+    def __init__(self, sess: "Session", limit: int = 2 ** 16):
+        super().__init__(limit=limit, loop=sess.loop)
+        self._sess, self._step, self._count = sess, -1, 0
+
+    def _enter(self):
+        s = self._sess
+        if s.loop.step != self._step:
+            self._step, self._count = s.loop.step, 0
+        self._count += 1
+        if self._count > SPIN_LIMIT:
+            s.ev("Spin", conn=-1)
+            raise Spin()
+
+    async def readexactly(self, n):
+        self._enter()
+        return await super().readexactly(n)
+
+    async def readline(self):
+        self._enter()
+        return await super().readline()
+
+    async def read(self, n=-1):
+        self._enter()
+        return await super().read(n)
+
+
 class _QuietWriter:
     def __init__(self, reader):
         self._reader, self.closed = reader, False
@@ -314,7 +347,7 @@ class Session:
         self.by_attempts = getattr(self, "by_attempts", 0) + 1
         if self.by_attempts % 3 != 0:
             raise ConnectionRefusedError("bystander refused")
-        reader = asyncio.StreamReader(limit=k.get("limit", 2 ** 16))
+        reader = _QuietReader(self, limit=k.get("limit", 2 ** 16))
         writer = _QuietWriter(reader)
         data = self.bystander_data
         t0 = self.loop.time()
@@ -484,10 +517,30 @@ class Session:
             loop.create_task(boot(), name="harness-boot")
             hb = loop.create_task(beat(), name="harness-beat") if heartbeat else None
             loop.call_at(until, loop.stop)
+            # wall-clock watchdog: client code that loops without ever awaiting (no read, no sleep) never returns to the event
+            # loop, and no virtual-time device can see it.  A session is a few milliseconds of real time; after STALL_SECONDS the
+            # alarm raises Spin inside whatever is running: the session ends as monopolised, the check goes on.
+            import signal
+            import threading
+            armed = threading.current_thread() is threading.main_thread()
+            if armed:
+                def on_alarm(signum, frame):
+                    # (raised inside a task, the exception ends that task - asyncio stores it there - and the loop goes on:
+                    #  the stall is recorded here, not where the exception lands)
+                    spin.append(1)
+                    STALLS[0] += 1
+                    self.ev("Spin", conn=0)
+                    raise Spin()
+                old_handler = signal.signal(signal.SIGALRM, on_alarm)
+                signal.setitimer(signal.ITIMER_REAL, STALL_SECONDS if STALLS[0] < 3 else 2.0)
             try:
                 loop.run_forever()
             except Spin:
                 spin.append(1)
+            finally:
+                if armed:
+                    signal.setitimer(signal.ITIMER_REAL, 0)
+                    signal.signal(signal.SIGALRM, old_handler)
             if hb is not None:
                 hb.cancel()
             pending = [t for t in asyncio.all_tasks(loop) if not t.done() and not t.get_name().startswith("harness-")]
